@@ -6,6 +6,8 @@ import (
 	"fmt"
 	"math"
 	"net"
+	"os"
+	"path/filepath"
 	"runtime"
 	"strings"
 	"sync"
@@ -133,6 +135,11 @@ func (r *srvRig) gate(id int) (chan struct{}, chan struct{}) {
 	return g, st
 }
 
+// rigNilErr: an error type whose Error method dereferences its receiver
+type rigNilErr struct{ text string }
+
+func (e *rigNilErr) Error() string { return e.text }
+
 type rigSvc struct{ r *srvRig }
 
 func (s *rigSvc) body(a *SArgs, rp *SReply) error {
@@ -142,6 +149,11 @@ func (s *rigSvc) body(a *SArgs, rp *SReply) error {
 		return errors.New(a.Text)
 	case "panic":
 		panic(a.Text)
+	case "panic-error": // the handler panics with an error VALUE
+		panic(errors.New(a.Text))
+	case "panic-nil-error": // … with a typed-nil error (`var e *myErr; panic(error(e))`): its Error() faults
+		var e *rigNilErr
+		panic(error(e))
 	}
 	rp.ID = a.ID
 	rp.Data = strings.Repeat("x", a.Size) + fmt.Sprint(a.ID)
@@ -191,6 +203,9 @@ func (s *rigSvc) Pooled(ctx context.Context, a *PArgs, rp *PReply) error {
 
 type rigPlugin struct{ r *srvRig }
 
+var holdArrived = make(chan struct{}, 4)
+var holdRelease = make(chan struct{})
+
 var errRigPostRead = errors.New("verif: request rejected after read")
 var errRigPreCall = errors.New("verif: rejected by pre-call plugin")
 var errRigAuth = errors.New("verif: bad token")
@@ -198,6 +213,14 @@ var errRigAuth = errors.New("verif: bad token")
 func (p *rigPlugin) PostReadRequest(ctx context.Context, r *protocol.Message, e error) error {
 	if r == nil || e != nil {
 		return nil
+	}
+	if r.Metadata["hold"] == "1" {
+		// a slow post-read stage (rate limiter, tracing): the request waits here until released
+		select {
+		case holdArrived <- struct{}{}:
+		default:
+		}
+		<-holdRelease
 	}
 	switch r.Metadata["reject"] {
 	case "postread":
@@ -296,6 +319,7 @@ type srvOpts struct {
 	async  bool
 	auth   bool
 	custom server.WorkerPool
+	unix   bool // listen on a unix socket (a network the port multiplexer does not handle)
 }
 
 func newSrvRig(o srvOpts) (*srvRig, error) {
@@ -347,13 +371,21 @@ func newSrvRig(o srvOpts) (*srvRig, error) {
 			return errRigAuth
 		}
 	}
-	ln, err := net.Listen("tcp", "127.0.0.1:0")
+	network, laddr := "tcp", "127.0.0.1:0"
+	if o.unix {
+		dir, err := os.MkdirTemp("", "verif-unix-")
+		if err != nil {
+			return nil, err
+		}
+		network, laddr = "unix", filepath.Join(dir, "s.sock")
+	}
+	ln, err := net.Listen(network, laddr)
 	if err != nil {
 		return nil, err
 	}
 	r.ln = ln
 	r.addr = ln.Addr().String()
-	go s.ServeListener("tcp", ln)
+	go s.ServeListener(network, ln)
 	select {
 	case <-s.Started:
 	case <-time.After(2 * time.Second):
@@ -362,7 +394,12 @@ func newSrvRig(o srvOpts) (*srvRig, error) {
 	return r, nil
 }
 
-func (r *srvRig) close() { r.s.Close() }
+func (r *srvRig) close() {
+	r.s.Close()
+	if r.opts.unix {
+		os.RemoveAll(filepath.Dir(r.addr))
+	}
+}
 
 // ---- raw peer --------------------------------------------------------------------------------
 
@@ -371,7 +408,11 @@ type rawPeer struct {
 }
 
 func dialRaw(addr string) (*rawPeer, error) {
-	c, err := net.DialTimeout("tcp", addr, time.Second)
+	network := "tcp"
+	if strings.HasPrefix(addr, "/") {
+		network = "unix"
+	}
+	c, err := net.DialTimeout(network, addr, time.Second)
 	if err != nil {
 		return nil, err
 	}
